@@ -150,7 +150,19 @@ func cmdReplay(args []string) {
 		p.Prepare(sc.Seed, "replay")
 	}
 	st := newStats()
+	// a loop that never reaches a seam would hang the replay too: same 60 s rule as the workers
+	finished := make(chan struct{})
+	go func() {
+		select {
+		case <-finished:
+		case <-time.After(60 * time.Second):
+			fmt.Printf("violation class=%s/hang-without-seam detail=no progress for 60 s inside the scenario\n", sc.Property)
+			fmt.Printf("VIOLATION property=%s replay=%s\n", sc.Property, args[0])
+			os.Exit(1)
+		}
+	}()
 	vs := p.Check(sc, st)
+	close(finished)
 	kf := loadKnown()
 	want := ""
 	if sc.Expect != nil {
@@ -300,7 +312,7 @@ func cmdCheck(args []string) {
 		json.Unmarshal(pv.fv.Scenario, &sc)
 		min := &sc
 		alone := true
-		if p.Engine() == "rx" || p.Engine() == "pipe" {
+		if (p.Engine() == "rx" || p.Engine() == "pipe") && !unminimisable(pv.fv.V.Class) {
 			alone = reproducesAlone(&sc, pv.fv.V.Class)
 		}
 		if !alone {
@@ -308,7 +320,7 @@ func cmdCheck(args []string) {
 			// part of what it takes: the replay file names that share
 			sc.Prefix = &PrefixSpec{Tier: pv.fv.Tier, W: pv.fv.W, NW: pv.fv.NW, Upto: pv.fv.Index}
 			pv.fv.V.Detail += " [only after the scenarios executed earlier in the same process; replay re-executes them]"
-		} else if i < 4 {
+		} else if i < 4 && !unminimisable(pv.fv.V.Class) {
 			min = minimise(p, &sc, pv.fv.V.Class, pv.fv.V.Signature)
 		}
 		min.Expect = &Expect{Class: pv.fv.V.Class}
@@ -392,11 +404,28 @@ func reproducesAlone(sc *Scenario, class string) bool {
 	f.Close()
 	defer os.Remove(f.Name())
 	cmd := exec.Command(selfExe(), "replay", f.Name())
-	err = cmd.Run()
+	if err := cmd.Start(); err != nil {
+		return true
+	}
+	done := make(chan error, 1)
+	go func() { done <- cmd.Wait() }()
+	select {
+	case err = <-done:
+	case <-time.After(150 * time.Second):
+		cmd.Process.Kill()
+		<-done
+		return true // it hangs on its own: that is the reproduction
+	}
 	if ee, ok := err.(*exec.ExitError); ok {
 		return ee.ExitCode() == 1
 	}
 	return err == nil
+}
+
+// unminimisable reports classes whose scenario must not be re-executed inside
+// the parent process (it would hang or die with it).
+func unminimisable(class string) bool {
+	return strings.HasSuffix(class, "/hang-without-seam") || strings.HasSuffix(class, "/process-death")
 }
 
 func maxInt(a, b int) int {
